@@ -13,12 +13,17 @@
 (* inputs of all steps up to and including this one (thermal inertia), and  *)
 (* of nothing else: the run over a prefix of the profile reproduces the     *)
 (* first steps of the run over the whole profile (InvPrefix).               *)
+(*                                                                          *)
+(* time_steps: the caller may run any subset of the profile's rows in any   *)
+(* order (steps = an injective sequence of row numbers); the i-th           *)
+(* calculated step carries the inputs of row steps[i] and nothing of the    *)
+(* rows that are not run.                                                   *)
 (***************************************************************************)
 EXTENDS Integers, Sequences, FiniteSets, TLC, Json
 
-CONSTANTS MaxLen, Inputs, EmitOn
-VARIABLES profile, cod, transient, t, log, aborted, started
-vars == <<profile, cod, transient, t, log, aborted, started>>
+CONSTANTS MaxLen, Inputs, EmitOn, StepOrders
+VARIABLES profile, steps, cod, transient, t, log, aborted, started
+vars == <<profile, steps, cod, transient, t, log, aborted, started>>
 
 Profiles == UNION {[1..n -> Inputs] : n \in 1..MaxLen}
 Hyd(x) == <<"hyd", x>>                                   \* uninterpreted: depends on the step's inputs only
@@ -26,33 +31,42 @@ Th(tr, past) == <<"th", IF tr THEN past ELSE <<past[Len(past)]>>>>   \* thermal 
 Solve(tr, past) == LET x == past[Len(past)] IN
     IF x = "X" THEN <<"diverged", <<>>, <<>>>> ELSE <<"result", Hyd(x), Th(tr, past)>>
 
+(* injective sequences over a set of row numbers: the ascending full run plus (StepOrders = "any") every subset in every order *)
+RECURSIVE InjSeqs(_)
+InjSeqs(S) == {<<>>} \cup UNION {{<<x>> \o s : s \in InjSeqs(S \ {x})} : x \in S}
+FullRun(p) == [i \in DOMAIN p |-> i]
+Eff == [i \in DOMAIN steps |-> profile[steps[i]]]                 \* the inputs along the run
 Init == /\ profile \in Profiles /\ cod \in BOOLEAN /\ transient \in BOOLEAN
+        /\ steps \in (IF StepOrders = "any" THEN InjSeqs(DOMAIN profile) \ {<<>>} ELSE {FullRun(profile)})
         /\ t = 0 /\ log = <<>> /\ aborted = FALSE /\ started = FALSE
-Step == /\ ~aborted /\ t < Len(profile)
-        /\ LET r == Solve(transient, SubSeq(profile, 1, t + 1)) IN
+Step == /\ ~aborted /\ t < Len(steps)
+        /\ LET r == Solve(transient, SubSeq(Eff, 1, t + 1)) IN
            IF r[1] = "diverged" /\ ~cod THEN aborted' = TRUE /\ log' = log /\ t' = t
            ELSE aborted' = FALSE /\ log' = Append(log, r) /\ t' = t + 1
-        /\ started' = TRUE /\ UNCHANGED <<profile, cod, transient>>
-Finish == /\ EmitOn /\ (aborted \/ t = Len(profile)) /\ started
-          /\ PrintT(ToJson([vp |-> "TS", profile |-> profile, cod |-> cod, transient |-> transient]))
+        /\ started' = TRUE /\ UNCHANGED <<profile, steps, cod, transient>>
+Finish == /\ EmitOn /\ (aborted \/ t = Len(steps)) /\ started
+          /\ PrintT(ToJson([vp |-> "TS", profile |-> profile, steps |-> steps, cod |-> cod, transient |-> transient]))
           /\ UNCHANGED vars
 Next == Step \/ Finish
 Spec == Init /\ [][Next]_vars
 
 (* every logged step equals the stand-alone solution of that step's inputs: entirely when stationary, in its hydraulic part when transient *)
 InvStandalone == \A i \in DOMAIN log :
-    /\ log[i][1] = (IF profile[i] = "X" THEN "diverged" ELSE "result")
-    /\ profile[i] # "X" => log[i][2] = Hyd(profile[i])
-    /\ (profile[i] # "X" /\ ~transient) => log[i] = Solve(FALSE, <<profile[i]>>)
+    /\ log[i][1] = (IF Eff[i] = "X" THEN "diverged" ELSE "result")
+    /\ Eff[i] # "X" => log[i][2] = Hyd(Eff[i])
+    /\ (Eff[i] # "X" /\ ~transient) => log[i] = Solve(FALSE, <<Eff[i]>>)
 (* the loop aborts exactly at the first infeasible step when divergence is not tolerated *)
-InvAbort == aborted => (~cod /\ profile[t + 1] = "X" /\ \A i \in 1..t : profile[i] # "X")
-InvComplete == (t = Len(profile)) => Len(log) = Len(profile)
+InvAbort == aborted => (~cod /\ Eff[t + 1] = "X" /\ \A i \in 1..t : Eff[i] # "X")
+InvComplete == (t = Len(steps)) => Len(log) = Len(steps)
 (* independent characterisation of the log: what the loop over a profile p logs (all of it, if it does not abort) *)
 RECURSIVE LogOf(_, _, _)
 LogOf(p, tr, n) == IF n = 0 THEN <<>> ELSE Append(LogOf(p, tr, n - 1), Solve(tr, SubSeq(p, 1, n)))
 (* a step depends on the past only: the log is the log of the run over the prefix consumed so far *)
-InvPrefix == log = LogOf(profile, transient, t)
+InvPrefix == log = LogOf(Eff, transient, t)
+(* rows that are not run leave no trace: the log is that of the run over the effective inputs, whatever the other rows hold *)
+InvOnlyRunRows == \A q \in Profiles : (Len(q) = Len(profile) /\ \A i \in DOMAIN steps : q[steps[i]] = profile[steps[i]])
+                      => LogOf([i \in DOMAIN steps |-> q[steps[i]]], transient, t) = log
 (* two steps with equal inputs have equal hydraulic results, whatever lies between them *)
-InvHydRepeat == \A i, k \in DOMAIN log : (profile[i] = profile[k] /\ profile[i] # "X") => log[i][2] = log[k][2]
-Emit == (EmitOn /\ t = 0) => PrintT(ToJson([vp |-> "TS", profile |-> profile, cod |-> cod, transient |-> transient]))
+InvHydRepeat == \A i, k \in DOMAIN log : (Eff[i] = Eff[k] /\ Eff[i] # "X") => log[i][2] = log[k][2]
+Emit == (EmitOn /\ t = 0) => PrintT(ToJson([vp |-> "TS", profile |-> profile, steps |-> steps, cod |-> cod, transient |-> transient]))
 =============================================================================
